@@ -813,10 +813,20 @@ class BeliefPropagation(Inference):
             marginal_2 = getattr(self.clique_beliefs[edge[1]], operation)(
                 list(frozenset(edge[1]) - sepset), inplace=False
             )
-            if (
-                marginal_1 != marginal_2
-                or marginal_1 != self.sepset_beliefs[sepset_key]
-            ):
+            sepset_belief = self.sepset_beliefs[sepset_key]
+            if sepset_belief is None:
+                return False
+            # Factor comparison uses an absolute tolerance; bring the three tables to a
+            # common unit scale first so that very small beliefs are not trivially "equal".
+            scale = max(
+                float(phi.values.max())
+                for phi in (marginal_1, marginal_2, sepset_belief)
+            )
+            if 1e-300 < scale < float("inf"):
+                marginal_1 = marginal_1.product(1 / scale, inplace=False)
+                marginal_2 = marginal_2.product(1 / scale, inplace=False)
+                sepset_belief = sepset_belief.product(1 / scale, inplace=False)
+            if marginal_1 != marginal_2 or marginal_1 != sepset_belief:
                 return False
         return True
 
